@@ -153,8 +153,24 @@ def run(ctx):
         "normalised to CNF and DNF (wrapper string, node lists, toTree() truth table); non-trivial = distinct "
         "formulas containing at least one binary operator"
     )
-    ctx.assumptions = ["hand-written Lean models are tied to the code only by this correspondence run (structure and truth tables)"]
+    ctx.assumptions = [
+        "the new system's combinators are translated from the source on every run (translate/gen_predicate.py; the `a is b` shortcut "
+        "of _impl_and is translated for distinct objects and modelled by hand for identical ones); the rewriting visitors and the "
+        "legacy normaliser are hand-written Lean models tied to the code by this correspondence run (structure and truth tables)"
+    ]
     with core.Lock():
+        # T-tie: Predicate.from_bool / _impl_and / _impl_or / logical_and / logical_or / logical_not are translated from the
+        # working tree into Gen/PredicatePy.lean; the theorems of C15.Translated are about those definitions
+        import os
+        import sys
+
+        sys.path.insert(0, os.path.join(core.VERIF, "translate"))
+        try:
+            import gen_predicate
+
+            gen_predicate.generate(core.GEN_DIR)
+        except Exception as e:  # Untranslatable or anything else: the tie is broken, the search below still runs
+            ctx.broken.append(f"translation: queries/tree/_predicate.py combinators: {type(e).__name__}: {e}")
         built = core.lean_build(ctx, LEAN_TARGETS)
         if built:
             core.lean_audit(ctx, ["ButlerModel.Props.C15"])
